@@ -27,6 +27,8 @@ package inprocgrpc
 //@   modifies nothing
 //
 //@ func ClientContext
+//@   assert_call[C10] context.Context.Value : looked_up_under_the_private_key: arg0 == ctx && arg1 == boxed(&clientContextKey)
+//@   ensures[C10] the_stored_caller_context_or_nil: (implements(lastresult("context.Context.Value"), "context.Context") ==> result == lastresult("context.Context.Value")) && (!implements(lastresult("context.Context.Value"), "context.Context") ==> result == nil)
 //@   modifies nothing
 //
 //@ func makeServerContext
@@ -46,6 +48,7 @@ package inprocgrpc
 // leading slash has been ensured.
 //@ define slashed(m) = ite(len(m) > 0 && byteat(m, 0) == '/', m, "/" + m)
 //@ func (*Channel).Invoke
+//@   ensures[C02,C01] a_response_that_cannot_be_copied_is_an_error: called("inprocgrpc.Cloner.Copy") && lastresult("inprocgrpc.Cloner.Copy") != nil ==> result == lastresult("inprocgrpc.Cloner.Copy")
 //@   assert_call[C13] (*internal.CallOptions).SetPeer : in_process_peer: arg0 == lastresult("internal.GetCallOptions") && arg1 == &inprocessPeer
 //@   ensures[C06,C08] nil_request_is_rejected_before_anything_runs: called(isNil) && lastresult(isNil) ==> is_status_err(result) && err_status_code(result) == 13 && !called("go") && !called("internal.ApplyPerRPCCreds")
 //@   assert_call[C13] internal.ApplyPerRPCCreds : always_secure_with_inproc_uri: arg0 == ctx$entry && arg1 == lastresult("internal.GetCallOptions") && arg3 && arg2 == fmt_inproc(slashed(method$entry))
@@ -61,6 +64,7 @@ package inprocgrpc
 //@   chan_cap_bound[C20] 1
 //@   blocking_escape[C05,C04] ctx
 //@   loop loop#1 invariant[C08] one_copy_per_response: (gotResponse <==> calls("inprocgrpc.Cloner.Copy") == 1) && calls("inprocgrpc.Cloner.Copy") <= 1 && calls("go") == 1 && calls("context.WithCancel") == 1 && !called("context.CancelFunc") && !called("internal.TranslateContextError")
+//@   loop loop#1 invariant[C02,C01] a_failed_copy_ends_the_loop: called("inprocgrpc.Cloner.Copy") ==> lastresult("inprocgrpc.Cloner.Copy") == nil
 //@   ensures[C08] success_means_exactly_one_response_was_copied: result == nil && called("go") ==> calls("inprocgrpc.Cloner.Copy") == 1
 //@   assert_call[C06,C01] inprocgrpc.Cloner.Copy : response_is_copied_into_the_callers_message: arg1 == resp && arg2 == r.data && r.data != nil
 //@   ensures[C04] never_a_bare_context_error: called("go") && result != context.Canceled && result != context.DeadlineExceeded || !called("go") || called("inprocgrpc.Cloner.Copy")
@@ -180,6 +184,7 @@ package inprocgrpc
 //@   requires held(&s.mu) && s.state == 0 && !closed(s.responses) && s.responses != nil
 //@   ensures[C03] at_most_one_header_frame_and_none_when_empty: calls(writeMessage) <= 1 && (old(len(s.headers)) == 0 ==> !called(writeMessage))
 //@   assert_call[C03,C01] writeMessage : headers_frame_on_the_response_channel: arg0 == s.ctx && arg1 == nil && arg2 == s.responses && arg3.headers == s.headers && arg3.data == nil && arg3.trailers == nil && arg3.err == nil
+//@   ensures[C03] pending_headers_are_sent: old(len(s.headers)) > 0 ==> calls(writeMessage) == 1
 //@   ensures[C03] failed_send_keeps_the_headers_pending: result != nil ==> s.state == 0 && s.headers == old(s.headers)
 //@   ensures[C03] after_success_headers_are_sent_for_good: result == nil ==> s.state == 1 && s.headers == nil
 //@   ensures[C05] does_not_close: closed(s.responses) == old(closed(s.responses))
@@ -199,6 +204,8 @@ package inprocgrpc
 //@   ensures[C02] a_failed_handler_always_gets_its_error_frame_attempted: err != nil ==> called(writeMessage) && lastarg(writeMessage, 3).err == err
 //@   ensures[C02] a_successful_handler_sends_no_error_frame: err == nil ==> !called(writeMessage) || lastarg(writeMessage, 3).err == nil
 //@   ensures[C20,C05] no_data_frames_from_finish: calls(writeMessage) <= 3
+//@   ensures[C03,C02] every_pending_part_is_attempted_exactly_once: calls(writeMessage) == ite(at_lock(s.state) == 0 && at_lock(len(s.headers)) > 0, 1, 0) + ite(at_lock(len(s.trailers)) > 0, 1, 0) + ite(err != nil, 1, 0)
+//@   assert_call[C03] writeMessage : frames_carry_the_streams_own_metadata: (arg3.headers != nil ==> arg3.headers == s.headers) && (arg3.headers == nil && arg3.trailers != nil ==> arg3.trailers == s.trailers)
 //@   modifies s.state, s.trailers
 //
 //@ func (*inProcessServerStream).SendMsg
@@ -270,7 +277,8 @@ package inprocgrpc
 //@   ensures[C08] single_response_mode_checks_for_extra_messages: lastMessage && called("inprocgrpc.Cloner.Copy") && lastresult("inprocgrpc.Cloner.Copy") == nil ==> calls("(*inProcessClientStream).ensureNoMoreLocked") == 1 && result == lastresult("(*inProcessClientStream).ensureNoMoreLocked")
 //@   ensures[C01] streaming_mode_returns_the_copy_result: !lastMessage && called("inprocgrpc.Cloner.Copy") ==> result == lastresult("inprocgrpc.Cloner.Copy") && !called("(*inProcessClientStream).ensureNoMoreLocked")
 //@   ensures[C01] copy_error_is_returned: called("inprocgrpc.Cloner.Copy") && lastresult("inprocgrpc.Cloner.Copy") != nil ==> result == lastresult("inprocgrpc.Cloner.Copy")
-//@   assert_call[C03] (*internal.CallOptions).SetHeaders : header_frame_to_stream_and_options: arg0 == s.copts && arg1 == r.headers && s.headers == r.headers && r.headers != nil
+//@   assert_call[C03] (*internal.CallOptions).SetHeaders : header_frame_to_stream_and_options: arg0 == s.copts && arg1 == r.headers && s.headers == r.headers && r.headers != nil && s.state == 1
+//@   assert_call[C02,C05] internal.TranslateContextError : stream_state_follows_what_ended_it: (called(readMessage) && lastresult(readMessage, 1) == io.EOF ==> s.state == 2) && (called(readMessage) && lastresult(readMessage, 1) == nil ==> s.state == 2 && s.last != nil && s.last.err == arg0 && arg0 != nil) && (!called(readMessage) ==> s.state == 2 && old(s.last) != nil && arg0 == old(s.last.err))
 //@   assert_call[C03] (*internal.CallOptions).SetTrailers : trailer_frame_to_stream_and_options: arg0 == s.copts && arg1 == r.trailers && s.trailers == r.trailers && r.trailers != nil
 //@   assert_call[C01,C04] readMessage : next_response_frame_with_the_stream_context: arg0 == s.ctx && arg1 == s.responses
 //@   modifies s.state, s.last, s.headers, s.trailers, mem("metadata.MD"), mem("error"), external
@@ -291,6 +299,8 @@ package inprocgrpc
 //@   assert_call[C04,C01] readMessage : first_frame_with_the_stream_context: arg0 == s.ctx && arg1 == s.responses && at_lock(s.state) == 0
 //@   ensures[C04] receive_failure_is_returned: called(readMessage) && lastresult(readMessage, 1) != nil && lastresult(readMessage, 1) != io.EOF ==> result0 == nil && result1 == lastresult(readMessage, 1)
 //@   ensures[C03] reads_at_most_one_frame: calls(readMessage) <= 1
+//@   ensures[C03,C01] a_frame_is_read_for_headers_at_most_once_per_stream: called(readMessage) && (lastresult(readMessage, 1) == nil || lastresult(readMessage, 1) == io.EOF) ==> s.state != 0
+//@   ensures[C02,C05] end_of_stream_or_an_error_frame_closes_the_stream: called(readMessage) && (lastresult(readMessage, 1) == io.EOF || (lastresult(readMessage, 1) == nil && lastresult(readMessage, 0).headers == nil && lastresult(readMessage, 0).data == nil && lastresult(readMessage, 0).trailers == nil && lastresult(readMessage, 0).err != nil)) ==> s.state == 2
 //@   assert_call[C03] (*internal.CallOptions).SetHeaders : header_frame_to_stream_and_options: arg0 == s.copts && arg1 == m.headers && s.headers == m.headers && m.headers != nil
 //@   assert_call[C03] (*internal.CallOptions).SetTrailers : trailer_frame_to_stream_and_options: arg0 == s.copts && arg1 == m.trailers && s.trailers == m.trailers && m.trailers != nil && m.headers == nil && m.data == nil
 //@   ensures[C01,C02] a_data_or_error_frame_is_kept_for_the_next_receive: called(readMessage) && lastresult(readMessage, 1) == nil && lastresult(readMessage, 0).headers == nil && (lastresult(readMessage, 0).data != nil || lastresult(readMessage, 0).trailers == nil) ==> s.last != nil && s.last.data == lastresult(readMessage, 0).data && s.last.err == lastresult(readMessage, 0).err
